@@ -899,6 +899,20 @@ def _type_from_subscripted_value(
         return AnyValue(AnySource.error)
     elif isinstance(root, type):
         return GenericValue(root, [_type_from_value(elt, ctx) for elt in members])
+    elif is_instance_of_typing_name(root, "TypeAliasType"):
+        # a generic PEP 695 alias with arguments, e.g. Alias[int]
+        alias_object = cast(Any, root)
+        alias = ctx.get_type_alias(
+            root,
+            lambda: type_from_runtime(alias_object.__value__, ctx=ctx),
+            lambda: alias_object.__type_params__,
+        )
+        return TypeAliasValue(
+            alias_object.__name__,
+            alias_object.__module__,
+            alias,
+            tuple(_type_from_value(elt, ctx) for elt in members),
+        )
     else:
         origin = get_origin(root)
         if isinstance(origin, type):
